@@ -35,7 +35,11 @@ impl<K: Eq + Hash + Clone> ArcState<K> {
   // Called when the cache is full and a new item needs to be admitted.
   fn replace(&mut self, capacity: u64, key_in_b2: bool) -> Option<(K, u64)> {
     let t1_cost = self.t1.current_total_cost();
-    if t1_cost > 0 && (t1_cost >= self.p || (key_in_b2 && t1_cost == self.p)) {
+    // T1 is the preferred side when it is over its target; it is also the only choice left when
+    // T2 has nothing to give (otherwise keys in T1 could not be evicted at all).
+    let take_from_t1 =
+      (t1_cost > 0 && (t1_cost >= self.p || (key_in_b2 && t1_cost == self.p))) || self.t2.tail.is_none();
+    if take_from_t1 {
       if let Some((key, cost)) = self.t1.pop_back() {
         self.b1.push_front(key.clone(), cost);
         if self.b1.current_total_cost() > capacity {
